@@ -5,7 +5,7 @@
    (remote signer), graffiti provider, auctioneer, beacon node, each relay on each attempt (with its
    latency) and submitter, any configuration, any context deadline.  All statements are over ALL
    environments, configurations and duties. *)
-From Verif Require Import Lib.Base Model.C05_Proposer Proofs.C05.
+From Verif Require Import Lib.Base Model.C05_Proposer Proofs.C05 Check.C05 Proofs.C05_Check.
 
 (* 1. Over a whole run (Prepare if asked, then Propose, whatever Prepare returned): a RANDAO reveal
    is asked only by Prepare, of the account the accounts provider holds for the duty's validator,
@@ -182,6 +182,81 @@ Print Assumptions C05_prepare_for_duty_validator.
 Theorem C05_propose_never_panics : forall c e d, o_panic (propose c e d) = false.
 Proof. exact propose_no_panic. Qed.
 Print Assumptions C05_propose_never_panics.
+
+(* ------------------------------------------------------------------------------------------- *)
+(* The correspondence check (Check/C05.v) *)
+
+(* 11. The boolean property the check evaluates on the implementation's observed behaviour is true of
+   the model's own behaviour on EVERY input (any configuration, environment, duty; no hypothesis):
+   P_b is a theorem of the model.  Hence a case on which P_b is false is a case on which the
+   implementation differs from the model, and P_b never raises an alarm on a tree that does what
+   the model does. *)
+Theorem C05_model_satisfies_P_b :
+  forall id cf e d prep, P_b (model_case id cf e d prep) = true.
+Proof. exact model_satisfies_P_b. Qed.
+Print Assumptions C05_model_satisfies_P_b.
+
+(* 12. On a case where no two relay goroutines act at one instant, [agree] is true exactly when
+   everything observed (every request of Prepare and of Propose with its arguments, Prepare's
+   result, every relay call with its time and content, the submission with its time) equals what
+   the model does, with one latitude: when relays were asked and nothing is submitted the observed
+   return time may be earlier than the model's (the deadline). *)
+Theorem C05_agree_decides_equality_with_model :
+  forall c,
+    tie_free (e_deadline (c_env c)) (case_plans c) = true ->
+    (agree c = true <->
+     exists t,
+       run (c_cfg c) (c_env c) (c_duty c) (c_prepare c) = ((c_prep_events c, c_prep_ok c), with_ret (c_obs c) t)
+       /\ o_ret (c_obs c) <= t
+       /\ (ret_free (with_ret (c_obs c) t) = false -> t = o_ret (c_obs c))).
+Proof. exact agree_sound. Qed.
+Print Assumptions C05_agree_decides_equality_with_model.
+
+(* 13. P_b is sound for the property's clauses on the OBSERVED behaviour (no model involved). *)
+Theorem C05_P_b_sound_sign_block :
+  forall c a s p pa st bo dom,
+    P_b c = true -> In (ESignBlock a s p pa st bo dom) (o_events (c_obs c)) ->
+    duty_account c = Some a /\ s = d_slot (c_duty c) /\ p = d_validator (c_duty c)
+    /\ dom = (DOMAIN_BEACON_PROPOSER, d_slot (c_duty c) / c_spe (c_cfg c))
+    /\ exists pr h, e_proposal (c_env c) = POk pr /\ p_block pr = Some h /\ h_slot h = d_slot (c_duty c)
+         /\ pa = h_parent h /\ st = h_state h /\ bo = h_body h.
+Proof. exact P_b_sound_sign_block. Qed.
+Print Assumptions C05_P_b_sound_sign_block.
+
+Theorem C05_P_b_sound_sign_randao :
+  forall c a ep dom,
+    P_b c = true -> In (ESignRandao a ep dom) (c_prep_events c) ->
+    provided_account c = Some a /\ ep = d_slot (c_duty c) / c_spe (c_cfg c)
+    /\ dom = (DOMAIN_RANDAO, d_slot (c_duty c) / c_spe (c_cfg c)).
+Proof. exact P_b_sound_sign_randao. Qed.
+Print Assumptions C05_P_b_sound_sign_randao.
+
+Theorem C05_P_b_sound_submit_local :
+  forall c t sp,
+    P_b c = true -> proposal_blinded c = false -> o_submit (c_obs c) = Some (t, sp) ->
+    exists pr h sig code,
+      e_proposal (c_env c) = POk pr /\ p_block pr = Some h /\ e_sig_block (c_env c) = Some sig
+      /\ signed_container (p_version pr) (p_blinded pr) = Some code
+      /\ sp = signed_proposal pr h sig code
+      /\ concat (o_unblind (c_obs c)) = [].
+Proof. exact P_b_sound_submit_local. Qed.
+Print Assumptions C05_P_b_sound_submit_local.
+
+Theorem C05_P_b_sound_submit_blinded :
+  forall c t sp,
+    P_b c = true -> proposal_blinded c = true -> o_submit (c_obs c) = Some (t, sp) ->
+    exists signed fc b,
+      expected_signed c = Some signed /\ full_container (sp_version signed) = Some fc
+      /\ sp = {| sp_version := sp_version signed; sp_blinded := false; sp_conts := [(fc, b)] |}
+      /\ delivered_by c t b = true.
+Proof. exact P_b_sound_submit_blinded. Qed.
+Print Assumptions C05_P_b_sound_submit_blinded.
+
+Theorem C05_P_b_sound_no_relay_no_submit :
+  forall c, P_b c = true -> proposal_blinded c = true -> some_call_answered c = false ->
+    o_submit (c_obs c) = None.
+Proof. exact P_b_sound_no_relay_no_submit. Qed.
+Print Assumptions C05_P_b_sound_no_relay_no_submit.
 
 (* ------------------------------------------------------------------------------------------- *)
 (* Non-vacuity: concrete environments in which the hypotheses hold and the interesting branch runs *)
